@@ -99,8 +99,8 @@ def record_logs(rec):
         try:
             build_logged(prog, log)
         except BaseException as e:
-            return {'build': list(log), 'iters': [], 'gets': [], 'getk': [], 'exc': type(e).__name__}
-        out = {'build': list(log), 'iters': [], 'gets': [], 'getk': [], 'exc': 'none'}
+            return {'build': list(log), 'iters': [], 'gets': [], 'getk': [], 'srck': [], 'exc': type(e).__name__}
+        out = {'build': list(log), 'iters': [], 'gets': [], 'getk': [], 'srck': [], 'exc': 'none'}
         for k in range(0, n + 2):
             log = []
             ds = build_logged(prog, log)
@@ -142,6 +142,22 @@ def record_logs(rec):
                 except BaseException:
                     ok = False
                 out['getk'].append({'i': i, 'key': key, 'ok': ok, 'calls': list(log)})
+        # ds[key] for every key of a dict source (stages that are not indexable
+        # by position may still hand a key down)
+        src = prog
+        while src['op'] not in ('list', 'dict'):
+            src = src['in']
+        if src['op'] == 'dict' and prog['op'] != 'dict':
+            for i, key in enumerate(src['ks']):
+                log = []
+                ds = build_logged(prog, log)
+                del log[:]
+                try:
+                    ds[key]
+                    ok = True
+                except BaseException:
+                    ok = False
+                out['srck'].append({'i': i, 'key': key, 'ok': ok, 'calls': list(log)})
     return out
 
 
